@@ -68,6 +68,12 @@ def _run_one(args):
         shutil.rmtree(tmp, ignore_errors=True)
 
 
+def _strip_suffix(construct):
+    """Constructs quote source text; in the renamed twin locals carry the suffix `_r`."""
+    import re
+    return re.sub(r"\b([A-Za-z_][A-Za-z_0-9]*?)_r\b", r"\1", construct)
+
+
 def run_selftest(pid, root, seed, jobs=None):
     variants = _load_variants(pid)
     if not variants:
@@ -110,6 +116,28 @@ def run_selftest(pid, root, seed, jobs=None):
             if new or gone:
                 failures.append(f"{v.name}: behaviour-preserving twin changed the verdict (new: {sorted(new)}, "
                                 f"gone: {sorted(gone)})")
+    # whole-package twins: re-emitted by ast.unparse, and with every function-local variable renamed
+    from .twins import transform_tree
+    for label, rename in (("unparse", False), ("rename-locals", True)):
+        tmp = tempfile.mkdtemp(prefix="tsverif-twin-")
+        try:
+            shutil.copytree(os.path.join(root, "torchsde"), os.path.join(tmp, "torchsde"),
+                            ignore=shutil.ignore_patterns("__pycache__"))
+            transform_tree(tmp, rename=rename)
+            try:
+                code, rep = run_property(pid, tmp, "quick", 0, write=False, quiet=True)
+                got = {(r, _strip_suffix(c)) for r, c in _violation_set(rep)}
+                want = {(r, _strip_suffix(c)) for r, c in base}
+                ran += 1
+                if got != want or code == 2:
+                    failures.append(f"whole-package twin `{label}` changed the verdict (exit {code}; new: "
+                                    f"{sorted(got - want)[:3]}, gone: {sorted(want - got)[:3]})")
+            except AnalysisError as e:
+                failures.append(f"whole-package twin `{label}` made the analysis fail: {e}")
+            except Exception as e:
+                failures.append(f"whole-package twin `{label}` made the analysis fail: {type(e).__name__}: {e}")
+        finally:
+            shutil.rmtree(tmp, ignore_errors=True)
     print(f"self-test {pid}: {ran} variants evaluated ({skipped} skipped), {len(failures)} failure(s)")
     if failures:
         raise AnalysisError("checker self-test failed: " + " | ".join(failures))
